@@ -23,6 +23,28 @@ theorem needs_wrapP_norm (rule : Nat → Bool) (c : Bool) (e : Expr) :
 theorem isOperator_wrapP_norm (c : Bool) (e : Expr) : isOperator (wrapP c (norm e)) = isOperator e := by
   simp [isOperator, prec?_wrapP, prec?_norm]
 
+theorem unaryOp?_wrapP (c : Bool) (e : Expr) : (wrapP c e).unaryOp? = e.unaryOp? := by
+  cases c <;> simp [wrapP, Expr.unaryOp?]
+
+theorem unaryOp?_norm : ∀ e : Expr, (norm e).unaryOp? = e.unaryOp?
+  | .ident _ => by simp [norm]
+  | .lit _ => by simp [norm]
+  | .unary _ _ => by simp [norm, Expr.unaryOp?]
+  | .binary _ _ _ => by simp [norm, Expr.unaryOp?]
+  | .call _ _ _ => by simp [norm, Expr.unaryOp?]
+  | .index _ _ => by simp [norm, Expr.unaryOp?]
+  | .selector _ _ => by simp [norm, Expr.unaryOp?]
+  | .paren e => by simp [norm, Expr.unaryOp?, unaryOp?_norm e]
+
+theorem callParens_wrapP_norm (c : Bool) (e : Expr) : callParens (wrapP c (norm e)) = callParens e := by
+  simp [callParens, unaryOp?_wrapP, unaryOp?_norm]
+
+theorem isOperator_norm (e : Expr) : isOperator (norm e) = isOperator e := by
+  simp [isOperator, prec?_norm]
+
+theorem Plain_wrapP (c : Bool) (e : Expr) : Plain (wrapP c e) ↔ Plain e := by
+  cases c <;> simp [wrapP, Plain]
+
 theorem strip_wrapP (c : Bool) (e : Expr) : strip (wrapP c e) = strip e := by
   cases c <;> simp [wrapP, strip]
 
@@ -37,56 +59,64 @@ theorem WF_wrapP (c : Bool) (e : Expr) : WF (wrapP c e) ↔ WF e := by
 
 /-- all four facts at once, by the recursor of the nested type -/
 def NormFacts (e : Expr) : Prop :=
-  strip (norm e) = strip e ∧ norm (norm e) = norm e ∧ print (norm e) = print e ∧ (WF e → WF (norm e))
+  strip (norm e) = strip e ∧ norm (norm e) = norm e ∧ print (norm e) = print e ∧ (WF e → WF (norm e)) ∧
+    (Plain e → Plain (norm e))
 
 def NormFactsArgs (as : List Expr) : Prop :=
   stripArgs (normArgs as) = stripArgs as ∧ normArgs (normArgs as) = normArgs as ∧
     printArgs (normArgs as) = printArgs as ∧ (WFArgs as → WFArgs (normArgs as)) ∧
-    (as ≠ [] → normArgs as ≠ [])
+    (as ≠ [] → normArgs as ≠ []) ∧ (PlainArgs as → PlainArgs (normArgs as))
 
 theorem normFacts (e : Expr) : NormFacts e := by
   refine Expr.rec (motive_1 := NormFacts) (motive_2 := NormFactsArgs) ?_ ?_ ?_ ?_ ?_ ?_ ?_ ?_ ?_ ?_ e
   · intro n; simp [NormFacts, norm]
   · intro n; simp [NormFacts, norm]
-  · intro u e ⟨h1, h2, h3, h4⟩
-    refine ⟨?_, ?_, ?_, ?_⟩
+  · intro u e ⟨h1, h2, h3, h4, h5⟩
+    refine ⟨?_, ?_, ?_, ?_, ?_⟩
     · simp [norm, strip, strip_wrapP, h1]
     · simp [norm, needs_wrapP_norm, norm_wrapP, h2]
     · simp [norm, print, needs_wrapP_norm, print_wrapP, h3]
     · simpa [norm, WF, WF_wrapP] using h4
-  · intro b l r ⟨l1, l2, l3, l4⟩ ⟨r1, r2, r3, r4⟩
-    refine ⟨?_, ?_, ?_, ?_⟩
+    · simpa [norm, Plain, Plain_wrapP] using h5
+  · intro b l r ⟨l1, l2, l3, l4, l5⟩ ⟨r1, r2, r3, r4, r5⟩
+    refine ⟨?_, ?_, ?_, ?_, ?_⟩
     · simp [norm, strip, strip_wrapP, l1, r1]
     · simp [norm, needs_wrapP_norm, norm_wrapP, l2, r2]
     · simp [norm, print, needs_wrapP_norm, print_wrapP, l3, r3]
     · simp only [norm, WF, WF_wrapP]; exact fun h => ⟨l4 h.1, r4 h.2⟩
-  · intro f args v ⟨f1, f2, f3, f4⟩ ⟨a1, a2, a3, a4, a5⟩
-    refine ⟨?_, ?_, ?_, ?_⟩
+    · simp only [norm, Plain, Plain_wrapP]; exact fun h => ⟨l5 h.1, r5 h.2⟩
+  · intro f args v ⟨f1, f2, f3, f4, f5⟩ ⟨a1, a2, a3, a4, a5, a6⟩
+    refine ⟨?_, ?_, ?_, ?_, ?_⟩
     · simp [norm, strip, strip_wrapP, f1, a1]
-    · simp [norm, isOperator_wrapP_norm, norm_wrapP, f2, a2]
-    · simp [norm, print, isOperator_wrapP_norm, print_wrapP, f3, a3]
+    · simp [norm, callParens_wrapP_norm, norm_wrapP, f2, a2]
+    · simp [norm, print, callParens_wrapP_norm, print_wrapP, f3, a3]
     · simp only [norm, WF, WF_wrapP]; exact fun h => ⟨f4 h.1, a4 h.2.1, fun hv => a5 (h.2.2 hv)⟩
-  · intro e i ⟨e1, e2, e3, e4⟩ ⟨i1, i2, i3, i4⟩
-    refine ⟨?_, ?_, ?_, ?_⟩
-    · simp [norm, strip, strip_wrapP, e1, i1]
-    · simp [norm, isOperator_wrapP_norm, norm_wrapP, e2, i2]
-    · simp [norm, print, isOperator_wrapP_norm, print_wrapP, e3, i3]
-    · simp only [norm, WF, WF_wrapP]; exact fun h => ⟨e4 h.1, i4 h.2⟩
-  · intro e n ⟨e1, e2, e3, e4⟩
-    refine ⟨?_, ?_, ?_, ?_⟩
-    · simp [norm, strip, strip_wrapP, e1]
-    · simp [norm, isOperator_wrapP_norm, norm_wrapP, e2]
-    · simp [norm, print, isOperator_wrapP_norm, print_wrapP, e3]
-    · simpa [norm, WF, WF_wrapP] using e4
-  · intro e ⟨e1, e2, e3, e4⟩
-    refine ⟨?_, ?_, ?_, ?_⟩
+    · simp only [norm, Plain, Plain_wrapP, isOperator_wrapP_norm, callParens_wrapP_norm]
+      exact fun h => ⟨f5 h.1, a6 h.2.1, h.2.2⟩
+  · intro e i ⟨e1, e2, e3, e4, e5⟩ ⟨i1, i2, i3, i4, i5⟩
+    refine ⟨?_, ?_, ?_, ?_, ?_⟩
+    · simp [norm, strip, e1, i1]
+    · simp [norm, e2, i2]
+    · simp [norm, print, e3, i3]
+    · simp only [norm, WF]; exact fun h => ⟨e4 h.1, i4 h.2⟩
+    · simp only [norm, Plain, isOperator_norm]; exact fun h => ⟨e5 h.1, i5 h.2.1, h.2.2⟩
+  · intro e n ⟨e1, e2, e3, e4, e5⟩
+    refine ⟨?_, ?_, ?_, ?_, ?_⟩
     · simp [norm, strip, e1]
     · simp [norm, e2]
     · simp [norm, print, e3]
     · simpa [norm, WF] using e4
-  · simp [NormFactsArgs, normArgs]
-  · intro a as ⟨h1, h2, h3, h4⟩ ⟨a1, a2, a3, a4, a5⟩
+    · simp only [norm, Plain, isOperator_norm]; exact fun h => ⟨e5 h.1, h.2⟩
+  · intro e ⟨e1, e2, e3, e4, e5⟩
     refine ⟨?_, ?_, ?_, ?_, ?_⟩
+    · simp [norm, strip, e1]
+    · simp [norm, e2]
+    · simp [norm, print, e3]
+    · simpa [norm, WF] using e4
+    · simpa [norm, Plain] using e5
+  · simp [NormFactsArgs, normArgs]
+  · intro a as ⟨h1, h2, h3, h4, h5⟩ ⟨a1, a2, a3, a4, a5, a6⟩
+    refine ⟨?_, ?_, ?_, ?_, ?_, ?_⟩
     · simp [normArgs, stripArgs, h1, a1]
     · simp [normArgs, h2, a2]
     · cases as with
@@ -97,10 +127,12 @@ theorem normFacts (e : Expr) : NormFacts e := by
         rw [printArgs_cons2, printArgs_cons2, h3, this]
     · simp only [normArgs, WFArgs]; exact fun h => ⟨h4 h.1, a4 h.2⟩
     · simp [normArgs]
+    · simp only [normArgs, PlainArgs]; exact fun h => ⟨h5 h.1, a6 h.2⟩
 
 theorem strip_norm (e : Expr) : strip (norm e) = strip e := (normFacts e).1
 theorem norm_norm (e : Expr) : norm (norm e) = norm e := (normFacts e).2.1
 theorem print_norm (e : Expr) : print (norm e) = print e := (normFacts e).2.2.1
-theorem WF_norm (e : Expr) (h : WF e) : WF (norm e) := (normFacts e).2.2.2 h
+theorem WF_norm (e : Expr) (h : WF e) : WF (norm e) := (normFacts e).2.2.2.1 h
+theorem Plain_norm (e : Expr) (h : Plain e) : Plain (norm e) := (normFacts e).2.2.2.2 h
 
 end ScriggoV.ExprPP
